@@ -59,6 +59,8 @@ ASSUMPTIONS = [
     "rays have max_distance = inf and unit direction; object transforms are rigid; every map keeps >= 1 active cell",
     "entries are ambiguous (any split between the adjacent cells accepted) where the ray runs within 2e-8 m of a cell face",
 ]
+ASAN_MODULES = ['cherab.tools.raytransfer.emitters']
+ASAN = dict(cases=300, workers=8, timecap=240)
 QUICK = dict(cases=320, workers=2, timecap=45)
 THOROUGH = dict(cases=40000, workers=16, timecap=600)
 REQUIRED = {"cell": 20000, "total": 500, "additivity": 5000, "mask": 5000, "active_total": 500, "bins": 400,
